@@ -393,6 +393,7 @@ def grain_rel(run, core, pair, kind):
             g2 = E.rebind_module(core, overrides={k: v for k, v in stubs.items() if hasattr(core, k)}, np_shim=Shim())
             f2 = g2["_get_rotation_and_strain"]
             nwork = len(c.work)
+            c.exploring = True  # forks of the second run are detected below (len(c.work)) and reported, not followed
             try:
                 out2 = f2(core.MineralPhase(ph), core.MineralFabric(fb), A2, D2, L2, gr.args["p"], gr.args["n"], gr.args["lam"])
             except Diverged as e:
